@@ -3,6 +3,7 @@
 TIER="${1:-quick}"
 VERIF="$(cd "$(dirname "$0")/.." && pwd)"
 cd "$VERIF" || exit 2
+mkdir -p scratch
 rc=0
 for p in $(python3 -c "import json;print(' '.join(c['property_id'] for c in json.load(open('MANIFEST.json'))['checks']))"); do
   s=$(date +%s)
